@@ -297,13 +297,16 @@ def run(ctx):
         ('three lines, blank between', "a\n\n  b", [('a', 1, 0), ('b', 3, 5)]),
         ('single token', "x", [('x', 4, 40)]),
         ('separators and keywords', "retrain p1; Select 1 ;", [('retrain', 1, 0), ('p1', 1, 8), (';', 1, 10), ('Select', 1, 12), ('1', 1, 19), (';', 1, 21)]),
+        ('starts with ( and ends with ) - two groups', "(select 1) union (select 2)", [('(', 1, 0), ('select', 1, 1), ('1', 1, 8), (')', 1, 9), ('union', 1, 11),
+                                                                                             ('(', 1, 17), ('select', 1, 18), ('2', 1, 25), (')', 1, 26)]),
+        ('one group in parentheses', "(select 1)", [('(', 1, 0), ('select', 1, 1), ('1', 1, 8), (')', 1, 9)]),
+        ('ends with a call', "select f(a)", [('select', 1, 0), ('f', 1, 7), ('(', 1, 8), ('a', 1, 9), (')', 1, 10)]),
         ('quotes and specials', "where n = '' and m = 'it''s' -- c", [('where', 1, 0), ('n', 1, 6), ('=', 1, 8), ("''", 1, 10), ('and', 1, 13), ('m', 1, 17), ('=', 1, 19),
                                                                        ("'it''s'", 1, 21)]),
     ]
     ctx.setcount('token_text_probes', len(source_cases))
     for label, src_text, spec in source_cases:
-        it = Interp({}, {})
-        it.module = tree
+        it = Interp.for_file(ctx.src, UTILS, {}, {})
         tl = toks(spec)
         try:
             out = it.call_function(tts, [tl], {}, Env())
